@@ -31,6 +31,7 @@ class ClassTable:
     def __init__(self):
         self.env = TypeEnv()
         self.classes: dict[str, ClassInfo] = {}
+        self.records: list[str] = []
         self._build()
 
     def _build(self):
@@ -52,14 +53,33 @@ class ClassTable:
             if is_enum:
                 members = [k for k in defaults if not k.startswith("_")]
                 self.env.enums[name] = TEnum(name, members)
+            elif spec.record:
+                self.records.append(name)
             else:
                 self.env.classes.add(name)
         for i, ci in enumerate(self.classes.values()):
             ci.cid = i + 1
         for nm, ts in REG.aliases.items():
             self.env.aliases[nm] = parse_type(ts, self.env)
+        from .types import TTuple
+        for name in self.records:
+            # records may only contain non-record field types (resolved in declaration order)
+            ci = self.classes[name]
+            order = [f for f in raw[name] if f not in ci.spec.fields] + list(ci.spec.fields)
+            seen, names = set(), []
+            for f in list(raw[name]) + list(ci.spec.fields):
+                if f not in seen:
+                    seen.add(f)
+                    names.append(f)
+            ts = []
+            for f in names:
+                src = ci.spec.fields.get(f, raw[name].get(f))
+                ts.append(parse_type(src, self.env))
+            self.env.aliases[name] = TTuple(ts, names=names, recname=name)
         for name, ci in self.classes.items():
             spec = ci.spec
+            if spec.record:
+                continue
             for f, ann in raw[name].items():
                 if f in spec.fields:
                     continue
